@@ -583,6 +583,9 @@ func main() {
 		return
 	}
 	nw := *n
+	if w := os.Getenv("VERIF_WORKERS"); w != "" && nw == 0 {
+		fmt.Sscan(w, &nw)
+	}
 	if nw == 0 {
 		nw = runtime.NumCPU()
 		if nw > 16 {
